@@ -636,3 +636,27 @@ def the_status_follows_the_machine_whatever_the_notification_mode(ctx):
                   'the store is reached on both sides of every test of all_status_changes',
                   f'`{src(s)}` is executed only on one side of a test of `all_status_changes`: with the other setting the status of the module never '
                   'follows the machine - it stays at what start_machine / stop_machine set', f)
+
+
+@rule('C14.R12', min_instances=1)
+def a_default_code_always_yields_a_status(ctx):
+    """HasStates.get_status(statefunc, default_code): start_machine / stop_machine / state_transition ask with default_code=BUSY
+    for the status of the state to run - whatever the state function is (a method with or without status_code, or a plain
+    function that is no method of the module) the answer is a status then, never None.  Walked with `statefunc is None` false and
+    `default_code is None` false: no `return None` may be reachable (a None stored as sm.status makes the status update a
+    WrongType error, and `sm.status[0]` raises in the next transition - the start request is lost)"""
+    m = ctx.m
+    f = m.method('frappy.states.HasStates', 'get_status', inherited=False)
+    ctx.analysed(f)
+    params = [a.arg for a in f.node.args.args]
+    if len(params) < 3:
+        raise AnchorMissing('HasStates.get_status(statefunc, default_code) not found')
+    sf, dc = params[1], params[2]
+    cfg = CFG(f.node, m, f.module)
+    env = {f'{sf} is None': False, sf: True, f'{dc} is None': False}
+    reach = reach_under(cfg, f.node, env, exc=False)
+    nones = [r for r in body_walk(f.node) if isinstance(r, ast.Return) and (r.value is None or (isinstance(r.value, ast.Constant) and r.value.value is None))
+             and set(cfg.ids(r)) & reach]
+    ctx.check(not nones, f'{f.qualname}:with a default code the result is a status', nones[0] if nones else f.node, 'no `return None` is reachable when default_code is given',
+              f'`{src(nones[0]) if nones else ""}` is reached although a default code was given: for that state function get_status answers None - the module status is set to None '
+              'at the start request instead of (BUSY, <state name>)', f)
